@@ -8,83 +8,188 @@
 // NOTE: the parent module defines lower-case constants n, m, w, h, p, ls; no
 // local variable in this file may use one of these names.
 //
-// Design rule: every assertion is phrased against an independent RFC 8554
-// transcription (the ref_* functions) that calls the module's own Hn/Hm/Hnx.
-// Under Kani these are replaced by the deterministic mixers below (functional
-// consistency); in native concrete playback (no stubs) the same assertions are
-// meaningful with the real hash functions, so a replayed failure is a real one.
+// Design rules
+//  * Every assertion is phrased against an independent RFC 8554 transcription
+//    (the ref_* functions) that calls the module's own Hn/Hm/Hnx.  Under Kani
+//    these are replaced by the deterministic stand-ins below (functional
+//    consistency); in native concrete playback (no stubs) the same assertions
+//    are meaningful with the real hash functions, so a replayed failure is a
+//    real one.
+//  * Symbolic execution cost in CBMC is dominated by the number of executed
+//    statements (a 255-step Winternitz chain costs seconds), so the stand-ins
+//    are straight-line code on whole arrays / 64-bit lanes, and the quick-tier
+//    message-hash stand-ins fix all but one byte of Q (see hn_lo / hn_hi).
+//  * Harnesses that quantify over ALL signature strings obtain, in native
+//    playback, an HONEST signature instead (fn honest, replaced by honest_any
+//    under Kani): hash-dependent parts of a counterexample cannot transfer from
+//    the stand-ins to SHA-256/SHAKE, an honestly generated witness can.
+
+use crate::RngError;
+
+const NLEAF: u32 = 1u32 << EXP_H;
+const NNODE: usize = 1usize << (EXP_H + 1);
+const LN: usize = n / 8; // 64-bit lanes in an n-byte string
+const LM: usize = m / 8;
 
 // ------------------------------------------------------------------------
-// Deterministic, position-sensitive stand-ins for the hash functions.
-// Every byte of every argument and every argument length influences the
-// output; arguments are not interchangeable (different rotation depth).
+// Deterministic stand-ins for the hash functions.
 
-fn vmix5(dom: u8, m1: &[u8], m2: &[u8], m3: &[u8], m4: &[u8], m5: &[u8], out: &mut [u8]) {
-    let l1 = m1.len();
-    let l2 = m2.len();
-    let l3 = m3.len();
-    let l4 = m4.len();
-    let l5 = m5.len();
-    let lt = (l1 as u8).wrapping_mul(3)
-        ^ (l2 as u8).wrapping_mul(5)
-        ^ (l3 as u8).wrapping_mul(7)
-        ^ (l4 as u8).wrapping_mul(11)
-        ^ (l5 as u8).wrapping_mul(13)
-        ^ dom;
-    let lo = out.len();
+// digest of the three "address" arguments I (16 bytes), u32str (4), u16str (2)
+fn dig3(m1: &[u8], m2: &[u8], m3: &[u8]) -> u64 {
+    if m1.len() != 16 || m2.len() != 4 || m3.len() != 2 {
+        // RFC 8554 never calls H with other lengths here: make it visible
+        return 0xDEAD_0000_0000_0000u64
+            ^ ((m1.len() as u64) << 16) ^ ((m2.len() as u64) << 8) ^ (m3.len() as u64);
+    }
+    let a = u128::from_le_bytes(unsafe { *(m1.as_ptr() as *const [u8; 16]) });
+    let b = u32::from_le_bytes(unsafe { *(m2.as_ptr() as *const [u8; 4]) });
+    let c = u16::from_le_bytes(unsafe { *(m3.as_ptr() as *const [u8; 2]) });
+    (a as u64) ^ ((a >> 64) as u64).rotate_left(13) ^ ((b as u64) << 16) ^ (c as u64)
+}
+
+// digest of a short string (message, one-byte counters)
+fn digs(s: &[u8]) -> u64 {
+    let l = s.len();
+    let mut v = (l as u64) << 40;
     let mut k = 0usize;
-    while k < lo {
-        let mut v = (k as u8).wrapping_mul(0x1d) ^ lt;
-        if l1 > 0 { v = v.rotate_left(1).wrapping_add(m1[k % l1]); }
-        if l2 > 0 { v = v.rotate_left(1) ^ m2[k % l2]; }
-        if l3 > 0 { v = v.rotate_left(1).wrapping_add(m3[k % l3]); }
-        if l4 > 0 { v = v.rotate_left(1) ^ m4[k % l4]; }
-        if l5 > 0 { v = v.rotate_left(1).wrapping_add(m5[k % l5]); }
-        out[k] = v;
+    while k < l {
+        v = v.rotate_left(9) ^ (s[k] as u64);
         k += 1;
     }
+    v
 }
 
-fn hn_mix(m1: &[u8], m2: &[u8], m3: &[u8], m4: &[u8], m5: &[u8]) -> [u8; n] {
-    let mut r = [0u8; n];
-    vmix5(1, m1, m2, m3, m4, m5, &mut r);
+fn lanes_n(s: &[u8]) -> [u64; LN] {
+    unsafe { core::mem::transmute::<[u8; n], [u64; LN]>(*(s.as_ptr() as *const [u8; n])) }
+}
+
+fn lanes_m(s: &[u8]) -> [u64; LM] {
+    unsafe { core::mem::transmute::<[u8; m], [u64; LM]>(*(s.as_ptr() as *const [u8; m])) }
+}
+
+fn fold8(x: u64) -> u8 {
+    let mut v = x;
+    v ^= v >> 36;
+    v ^= v >> 18;
+    v ^= v >> 9;
+    v as u8
+}
+
+// Hn, general shape.  mode: 0 = full (Q = mix of C), otherwise the message
+// hash (m3 == D_MESG) returns Q = [fill; n] with Q[QPOS] a digest of all inputs
+// (fill = mode as u8); mode 0xFF additionally fixes Q[QPOS] = 0xFF.
+const QPOS: usize = 5;
+
+fn hn_core(mode: u16, m1: &[u8], m2: &[u8], m3: &[u8], m4: &[u8], m5: &[u8]) -> [u8; n] {
+    let d = dig3(m1, m2, m3);
+    if m5.len() == n && m4.len() == 1 {
+        // chain step / secret x[i]:  lane 0 absorbs address, counter and itself
+        let mut l = lanes_n(m5);
+        l[0] = (l[0] ^ d ^ ((m4[0] as u64) << 48)).rotate_left(7);
+        return unsafe { core::mem::transmute::<[u64; LN], [u8; n]>(l) };
+    }
+    if m4.len() == n {
+        // message hash: m4 = C, m5 = message
+        let mut l = lanes_n(m4);
+        let e = d ^ digs(m5).rotate_left(23);
+        if mode == 0 {
+            l[0] = (l[0] ^ e).rotate_left(7);
+            return unsafe { core::mem::transmute::<[u64; LN], [u8; n]>(l) };
+        }
+        let mut r = [mode as u8; n];
+        if mode != 0xFF {
+            r[QPOS] = fold8(l[0] ^ l[LN - 1].rotate_left(3) ^ e);
+        }
+        return r;
+    }
+    // not an RFC 8554 call shape
+    let mut r = [0xEEu8; n];
+    r[0] = fold8(d ^ digs(m4) ^ digs(m5).rotate_left(5));
     r
 }
 
-fn hm_mix(m1: &[u8], m2: &[u8], m3: &[u8], m4: &[u8], m5: &[u8]) -> [u8; m] {
-    let mut r = [0u8; m];
-    vmix5(2, m1, m2, m3, m4, m5, &mut r);
+fn hn_full(m1: &[u8], m2: &[u8], m3: &[u8], m4: &[u8], m5: &[u8]) -> [u8; n] {
+    hn_core(0, m1, m2, m3, m4, m5)
+}
+
+// message hash with all coefficients 1 except one symbolic byte: cheap signing chains
+fn hn_lo(m1: &[u8], m2: &[u8], m3: &[u8], m4: &[u8], m5: &[u8]) -> [u8; n] {
+    hn_core(0x01, m1, m2, m3, m4, m5)
+}
+
+// message hash with all coefficients 0xFE except one symbolic byte: cheap verification chains
+fn hn_hi(m1: &[u8], m2: &[u8], m3: &[u8], m4: &[u8], m5: &[u8]) -> [u8; n] {
+    hn_core(0xFE, m1, m2, m3, m4, m5)
+}
+
+// message hash constant 0xFF..FF (verification: only the two checksum chains run)
+fn hn_ff(m1: &[u8], m2: &[u8], m3: &[u8], m4: &[u8], m5: &[u8]) -> [u8; n] {
+    hn_core(0xFF, m1, m2, m3, m4, m5)
+}
+
+fn hm_lean(m1: &[u8], m2: &[u8], m3: &[u8], m4: &[u8], m5: &[u8]) -> [u8; m] {
+    let d = dig3(m1, m2, m3);
+    if m4.len() == m && m5.len() == m {
+        // interior node: ordered combination of both children, lane by lane
+        let a = lanes_m(m4);
+        let b = lanes_m(m5);
+        let mut l = [0u64; LM];
+        let mut t = 0usize;
+        while t < LM {
+            l[t] = a[t].rotate_left(3) ^ b[t] ^ ((t as u64) << 60);
+            t += 1;
+        }
+        l[0] = (l[0] ^ d).rotate_left(7);
+        return unsafe { core::mem::transmute::<[u64; LM], [u8; m]>(l) };
+    }
+    if m4.len() == m && m5.len() == 0 {
+        // leaf
+        let mut l = lanes_m(m4);
+        l[0] = (l[0] ^ d).rotate_left(11);
+        return unsafe { core::mem::transmute::<[u64; LM], [u8; m]>(l) };
+    }
+    let mut r = [0xEDu8; m];
+    r[0] = fold8(d ^ digs(m4) ^ digs(m5).rotate_left(5));
     r
 }
 
-fn hnx_mix(m1: &[u8], m2: &[u8], m3: &[u8], mm: &[[u8; n]; p]) -> [u8; n] {
-    let mut r = [0u8; n];
-    vmix5(3, m1, m2, m3, &[], &[], &mut r);
+fn hnx_lean(m1: &[u8], m2: &[u8], m3: &[u8], mm: &[[u8; n]; p]) -> [u8; n] {
+    let d = dig3(m1, m2, m3);
+    let mut acc = [0u64; LN];
     let mut i = 0usize;
     while i < p {
-        let mut k = 0usize;
-        while k < n {
-            r[k] = (r[k].rotate_left(1) ^ mm[i][k]).wrapping_add(i as u8);
-            k += 1;
+        let x = lanes_n(&mm[i]);
+        let mut t = 0usize;
+        while t < LN {
+            acc[t] = acc[t].rotate_left(5) ^ x[t];
+            t += 1;
         }
         i += 1;
     }
-    r
+    acc[0] = (acc[0] ^ d).rotate_left(7);
+    unsafe { core::mem::transmute::<[u64; LN], [u8; n]>(acc) }
 }
 
 // Stand-in for PrivateKey::ots_sign in the harnesses that are about the LMS
-// layer (state machine, authentication path): draws C from the RNG exactly like
-// the real function (so order-of-effects observations still work) and returns
-// a deterministic mix of (I, q, SEED, C, msg).  It ignores current_leaf and T,
-// like the real function.
-fn ots_sign_mix<R: CryptoRng + RngCore>(sk: PrivateKey, rng: &mut R, q: u32, msg: &[u8])
+// layer (state machine, authentication path): draws C from the RNG exactly
+// like the real function (so order-of-effects observations still work) and
+// returns POOL (arbitrary bytes chosen by the harness) with the type word, C and
+// a digest of (I, q, SEED, msg) written in.  Deterministic in its arguments;
+// ignores current_leaf and T like the real function.
+static mut OTS_POOL: [u8; ots_siglen] = [0u8; ots_siglen];
+
+fn ots_sign_pool<R: CryptoRng + RngCore>(sk: PrivateKey, rng: &mut R, q: u32, msg: &[u8])
     -> [u8; ots_siglen]
 {
     let mut c = [0u8; n];
     rng.fill_bytes(&mut c);
-    let e = ref_u32str(q);
-    let mut sig = [0u8; ots_siglen];
-    vmix5(4, &sk.I, &e, &sk.SEED, &c, msg, &mut sig);
+    let mut sig = unsafe { OTS_POOL };
+    sig[4..(4 + n)].copy_from_slice(&c);
+    let d = dig3(&sk.I, &ref_u32str(q), &[0u8, 0u8]) ^ digs(msg).rotate_left(29) ^ lanes_m(&sk.SEED)[0]
+        ^ lanes_m(&sk.SEED)[LM - 1].rotate_left(17);
+    sig[4 + n] = fold8(d);
+    sig[4 + n + 1] = fold8(d.rotate_left(20));
+    sig[ots_siglen - 1] = fold8(d.rotate_left(41));
     sig
 }
 
@@ -125,10 +230,14 @@ impl RngCore for VRng {
         self.calls = self.calls.wrapping_add(1);
         let l = dst.len();
         self.lastlen = l;
-        let mut k = 0usize;
-        while k < l {
-            dst[k] = self.tape[k % n];
-            k += 1;
+        if l == n {
+            dst.copy_from_slice(&self.tape);
+        } else {
+            let mut k = 0usize;
+            while k < l {
+                dst[k] = self.tape[k % n];
+                k += 1;
+            }
         }
     }
     fn try_fill_bytes(&mut self, dst: &mut [u8]) -> Result<(), RngError> {
@@ -138,8 +247,6 @@ impl RngCore for VRng {
 }
 
 impl CryptoRng for VRng {}
-
-use crate::RngError;
 
 // ------------------------------------------------------------------------
 // RFC 8554 transcription (independent of the code under test).
@@ -186,11 +293,7 @@ fn ref_cksm(s: &[u8]) -> u16 {
 // Q || Cksm(Q)
 fn ref_qck(q: &[u8; n]) -> [u8; n + 2] {
     let mut r = [0u8; n + 2];
-    let mut k = 0usize;
-    while k < EXP_N {
-        r[k] = q[k];
-        k += 1;
-    }
+    r[..n].copy_from_slice(q);
     let c = ref_u16str(ref_cksm(q));
     r[EXP_N] = c[0];
     r[EXP_N + 1] = c[1];
@@ -207,7 +310,7 @@ fn ref_x(id: &[u8; 16], seed: &[u8; m], q: u32, i: usize) -> [u8; n] {
     Hn(id, &ref_u32str(q), &ref_u16str(i as u16), &[0xFFu8], seed)
 }
 
-// one Winternitz chain: apply H(I || u32str(q) || u16str(i) || u8str(j) || tmp)
+// one Winternitz chain: tmp = H(I || u32str(q) || u16str(i) || u8str(j) || tmp)
 // for j = from .. to-1
 fn ref_chain(id: &[u8; 16], q: u32, i: usize, from: usize, to: usize, start: &[u8; n]) -> [u8; n] {
     let e = ref_u32str(q);
@@ -236,16 +339,8 @@ fn ref_ots_pub(id: &[u8; 16], seed: &[u8; m], q: u32) -> [u8; n] {
 // section 4.5 (Algorithm 3): LM-OTS signature u32str(type) || C || y[0] || ... || y[p-1]
 fn ref_ots_sign(id: &[u8; 16], seed: &[u8; m], q: u32, c: &[u8; n], msg: &[u8]) -> [u8; ots_siglen] {
     let mut sig = [0u8; ots_siglen];
-    let ty = ref_u32str(EXP_OTS_TYPE);
-    sig[0] = ty[0];
-    sig[1] = ty[1];
-    sig[2] = ty[2];
-    sig[3] = ty[3];
-    let mut k = 0usize;
-    while k < EXP_N {
-        sig[4 + k] = c[k];
-        k += 1;
-    }
+    sig[0..4].copy_from_slice(&ref_u32str(EXP_OTS_TYPE));
+    sig[4..(4 + EXP_N)].copy_from_slice(c);
     let qq = Hn(id, &ref_u32str(q), &ref_u16str(REF_D_MESG), c, msg);
     let qc = ref_qck(&qq);
     let mut i = 0usize;
@@ -253,11 +348,8 @@ fn ref_ots_sign(id: &[u8; 16], seed: &[u8; m], q: u32, c: &[u8; n], msg: &[u8]) 
         let a = ref_coef(&qc, i) as usize;
         let x = ref_x(id, seed, q, i);
         let y = ref_chain(id, q, i, 0, a, &x);
-        let mut k = 0usize;
-        while k < EXP_N {
-            sig[4 + EXP_N + i * EXP_N + k] = y[k];
-            k += 1;
-        }
+        let o = 4 + EXP_N + i * EXP_N;
+        sig[o..(o + EXP_N)].copy_from_slice(&y);
         i += 1;
     }
     sig
@@ -275,11 +367,7 @@ fn ref_ots_kc(id: &[u8; 16], q: u32, osig: &[u8], msg: &[u8]) -> Option<[u8; n]>
         return None;
     }
     let mut c = [0u8; n];
-    let mut k = 0usize;
-    while k < EXP_N {
-        c[k] = osig[4 + k];
-        k += 1;
-    }
+    c.copy_from_slice(&osig[4..(4 + EXP_N)]);
     let qq = Hn(id, &ref_u32str(q), &ref_u16str(REF_D_MESG), &c, msg);
     let qc = ref_qck(&qq);
     let mut z = [[0u8; n]; p];
@@ -287,11 +375,8 @@ fn ref_ots_kc(id: &[u8; 16], q: u32, osig: &[u8], msg: &[u8]) -> Option<[u8; n]>
     while i < EXP_P {
         let a = ref_coef(&qc, i) as usize;
         let mut y = [0u8; n];
-        let mut k = 0usize;
-        while k < EXP_N {
-            y[k] = osig[4 + EXP_N + i * EXP_N + k];
-            k += 1;
-        }
+        let o = 4 + EXP_N + i * EXP_N;
+        y.copy_from_slice(&osig[o..(o + EXP_N)]);
         z[i] = ref_chain(id, q, i, a, (1usize << EXP_W) - 1, &y);
         i += 1;
     }
@@ -326,11 +411,8 @@ fn ref_verify(id: &[u8; 16], root: &[u8; m], sig: &[u8], msg: &[u8]) -> bool {
     let mut i = 0usize;
     while i < EXP_H {
         let mut pe = [0u8; m];
-        let mut k = 0usize;
-        while k < EXP_M {
-            pe[k] = sig[8 + ol + i * EXP_M + k];
-            k += 1;
-        }
+        let o = 8 + ol + i * EXP_M;
+        pe.copy_from_slice(&sig[o..(o + EXP_M)]);
         let odd = (node % 2) == 1;
         node = node / 2;
         if odd {
@@ -340,15 +422,13 @@ fn ref_verify(id: &[u8; 16], root: &[u8; m], sig: &[u8], msg: &[u8]) -> bool {
         }
         i += 1;
     }
-    let mut same = true;
+    let mut diff = 0u8;
     let mut k = 0usize;
     while k < EXP_M {
-        if tmp[k] != root[k] {
-            same = false;
-        }
+        diff |= tmp[k] ^ root[k];
         k += 1;
     }
-    same
+    diff == 0
 }
 
 // ------------------------------------------------------------------------
@@ -358,15 +438,61 @@ fn mk_key(leaf: u32) -> PrivateKey {
     PrivateKey { I: kani::any(), SEED: kani::any(), current_leaf: leaf, T: kani::any() }
 }
 
-const NLEAF: u32 = 1u32 << EXP_H;
-const NNODE: usize = 1usize << (EXP_H + 1);
+// An honestly generated (public key, signature) pair for leaf q % 2^h: the tree
+// nodes on the path of that leaf are computed as RFC 8554 section 5.3
+// prescribes (all other nodes are zero; they do not enter the signature's
+// verification), then the library signs.  Under Kani this function is replaced
+// by honest_any: the pair is then ARBITRARY (a superset of the honest ones).
+fn honest(id: [u8; 16], seed: [u8; m], q: u32, msg: &[u8], tape: [u8; n],
+    _arb_root: [u8; m], _arb_sig: [u8; lms_siglen]) -> (PublicKey, [u8; lms_siglen])
+{
+    let q = q % NLEAF;
+    let mut sk = PrivateKey { I: id, SEED: seed, current_leaf: q, T: [[0u8; m]; 1usize << (h + 1)] };
+    // random-looking siblings so that the path bytes are not all zero
+    let mut r = 1usize;
+    while r < NNODE {
+        sk.T[r] = Hm(&id, &ref_u32str(r as u32), &[0x55u8, 0x55u8], &seed, &[]);
+        r += 1;
+    }
+    let mut node = NLEAF + q;
+    let kpub = ref_ots_pub(&id, &seed, q);
+    sk.T[node as usize] = Hm(&id, &ref_u32str(node), &ref_u16str(REF_D_LEAF), &kpub, &[]);
+    while node > 1 {
+        node = node / 2;
+        let l = sk.T[(2 * node) as usize];
+        let rr = sk.T[(2 * node + 1) as usize];
+        sk.T[node as usize] = Hm(&id, &ref_u32str(node), &ref_u16str(REF_D_INTR), &l, &rr);
+    }
+    let pk = sk.compute_public();
+    let mut rng = VRng::new(tape, core::ptr::null());
+    match sk.sign(&mut rng, msg) {
+        Some(s) => (pk, s),
+        None => (pk, [0u8; lms_siglen]),
+    }
+}
+
+fn honest_any(id: [u8; 16], _seed: [u8; m], _q: u32, _msg: &[u8], _tape: [u8; n],
+    arb_root: [u8; m], arb_sig: [u8; lms_siglen]) -> (PublicKey, [u8; lms_siglen])
+{
+    (PublicKey { I: id, T1: arb_root }, arb_sig)
+}
+
+// true in native playback, false (stubbed by is_native_no) under Kani
+fn is_native() -> bool {
+    true
+}
+
+fn is_native_no() -> bool {
+    false
+}
 
 // ------------------------------------------------------------------------
-// H0: constants of the parameter set against the RFC tables
+// H0: constants of the parameter set against the RFC tables; coef / checksum
+// for all Q (bit-precise); compute_public
 
 #[kani::proof]
-#[kani::unwind(40)]
-fn verif_lms_params() {
+#[kani::unwind(66)] // kani::any() of the 64-node tree
+fn verif_lms_params_coef() {
     assert!(n == EXP_N && m == EXP_M && w == EXP_W && h == EXP_H);
     assert!(p == EXP_P && ls == EXP_LS);
     assert!(key_type == EXP_LMS_TYPE && ots_type == EXP_OTS_TYPE);
@@ -393,16 +519,8 @@ fn verif_lms_params() {
     kani::assume(c < 16);
     assert!(pk.I[c] == sk.I[c]);
     kani::cover!(pk.T1[b] == 0x5a && pk.I[c] == 0xa5);
-}
-
-// ------------------------------------------------------------------------
-// H1: coef / checksum for all Q (bit-precise)
-
-#[kani::proof]
-#[kani::unwind(40)]
-fn verif_lms_coef_cksm() {
-    let qq: [u8; n] = kani::any();
     // checksum over all n-byte Q
+    let qq: [u8; n] = kani::any();
     let ck = checksum(&qq);
     assert!(ck == ref_cksm(&qq));
     // coef over Q || Cksm(Q) and over an arbitrary (n+2)-byte string, all indices < p
@@ -418,12 +536,14 @@ fn verif_lms_coef_cksm() {
 }
 
 // ------------------------------------------------------------------------
-// H2: sign, state machine, from an ARBITRARY key state (one-step induction)
+// H1: sign, state machine, from an ARBITRARY key state (one-step induction)
 
 #[kani::proof]
-#[kani::unwind(1126)] // ots_sign_mix fills ots_siglen (<= 1124) bytes in one loop
-#[kani::stub(PrivateKey::ots_sign, ots_sign_mix)]
+#[kani::unwind(66)]
+#[kani::stub(PrivateKey::ots_sign, ots_sign_pool)]
 fn verif_lms_sign_state() {
+    let pool: [u8; ots_siglen] = kani::any();
+    unsafe { OTS_POOL = pool; }
     let old: u32 = kani::any();
     let mut sk = mk_key(old);
     let sk0 = sk;
@@ -467,9 +587,7 @@ fn verif_lms_sign_state() {
             kani::assume(k < EXP_OTS_SIGLEN);
             assert!(sig[4 + k] == exp[k]);
             // LMS type word
-            let t = ref_u32str(EXP_LMS_TYPE);
-            let o = 4 + EXP_OTS_SIGLEN;
-            assert!(sig[o] == t[0] && sig[o + 1] == t[1] && sig[o + 2] == t[2] && sig[o + 3] == t[3]);
+            assert!(ref_strtou32(&sig, 4 + EXP_OTS_SIGLEN) == EXP_LMS_TYPE);
             kani::cover!(old == 0);
             kani::cover!(old == NLEAF - 1);
         }
@@ -477,9 +595,11 @@ fn verif_lms_sign_state() {
 }
 
 // ------------------------------------------------------------------------
-// H3: sign, authentication path, every leaf (concrete index, arbitrary tree)
+// H2: sign, authentication path, every leaf (concrete index, arbitrary tree)
 
 fn sign_path_range(lo: u32, hi: u32) {
+    let pool: [u8; ots_siglen] = kani::any();
+    unsafe { OTS_POOL = pool; }
     let base = mk_key(0);
     let msg: [u8; 2] = kani::any();
     let tape: [u8; n] = kani::any();
@@ -514,19 +634,16 @@ fn sign_path_range(lo: u32, hi: u32) {
 }
 
 #[kani::proof]
-#[kani::unwind(1126)]
-#[kani::stub(PrivateKey::ots_sign, ots_sign_mix)]
+#[kani::unwind(66)]
+#[kani::stub(PrivateKey::ots_sign, ots_sign_pool)]
 fn verif_lms_sign_path_all() {
     sign_path_range(0, NLEAF);
 }
 
 // ------------------------------------------------------------------------
-// H4: ots_sign against RFC 8554 Algorithm 3 (hashes = deterministic mixers)
+// H3: ots_sign against RFC 8554 Algorithm 3 (hashes = deterministic stand-ins)
 
-#[kani::proof]
-#[kani::unwind(256)] // Winternitz chain: at most 2^w - 1 = 255 steps
-#[kani::stub(Hn, hn_mix)]
-fn verif_lms_ots_sign_ref() {
+fn ots_sign_vs_ref() {
     let q: u32 = kani::any();
     let sk = mk_key(kani::any());
     let msg: [u8; 3] = kani::any();
@@ -540,24 +657,41 @@ fn verif_lms_ots_sign_ref() {
     assert!(sig[k] == exp[k]);
     assert!(ref_strtou32(&sig, 0) == EXP_OTS_TYPE);
     kani::cover!(k == EXP_OTS_SIGLEN - 1 && sig[k] == 0x77);
+    kani::cover!(k == 4 + EXP_N * (QPOS + 2) - 1 && sig[k] == 0x77);
 }
 
-// ------------------------------------------------------------------------
-// H5: verify == RFC 8554 Algorithm 6/6a/4b for ALL signature strings of the
-// right length (hashes = deterministic mixers)
+#[kani::proof]
+#[kani::unwind(256)] // Winternitz chain: at most 2^w - 1 = 255 steps
+#[kani::stub(Hn, hn_lo)]
+fn verif_lms_ots_sign_ref_q1() {
+    ots_sign_vs_ref();
+}
 
 #[kani::proof]
 #[kani::unwind(256)]
-#[kani::stub(Hn, hn_mix)]
-#[kani::stub(Hm, hm_mix)]
-#[kani::stub(Hnx, hnx_mix)]
-fn verif_lms_verify_ref() {
-    let pk = PublicKey { I: kani::any(), T1: kani::any() };
-    let sig: [u8; lms_siglen] = kani::any();
+#[kani::stub(Hn, hn_full)]
+fn verif_lms_ots_sign_ref_full() {
+    ots_sign_vs_ref();
+}
+
+// ------------------------------------------------------------------------
+// H4: verify == RFC 8554 Algorithm 6/6a/4b for ALL signature strings of the
+// right length (hashes = deterministic stand-ins)
+
+fn verify_vs_ref() {
+    let id: [u8; 16] = kani::any();
+    let seed: [u8; m] = kani::any();
+    let q: u32 = kani::any();
     let msg: [u8; 3] = kani::any();
+    let tape: [u8; n] = kani::any();
+    let (pk, sig) = honest(id, seed, q, &msg, tape, kani::any(), kani::any());
     let got = pk.verify(&sig, &msg);
     let exp = ref_verify(&pk.I, &pk.T1, &sig, &msg);
     assert!(got == exp);
+    if is_native() {
+        // only in native playback: the pair is an honest one and must be accepted
+        assert!(got);
+    }
     kani::cover!(got);
     kani::cover!(!got && ref_strtou32(&sig, 0) >= NLEAF);
     kani::cover!(!got && ref_strtou32(&sig, 0) < NLEAF && ref_strtou32(&sig, 4) != EXP_OTS_TYPE);
@@ -565,4 +699,91 @@ fn verif_lms_verify_ref() {
         && ref_strtou32(&sig, 4 + EXP_OTS_SIGLEN) != EXP_LMS_TYPE);
     kani::cover!(!got && ref_strtou32(&sig, 0) < NLEAF && ref_strtou32(&sig, 4) == EXP_OTS_TYPE
         && ref_strtou32(&sig, 4 + EXP_OTS_SIGLEN) == EXP_LMS_TYPE);
+}
+
+#[kani::proof]
+#[kani::unwind(256)]
+#[kani::stub(Hn, hn_hi)]
+#[kani::stub(Hm, hm_lean)]
+#[kani::stub(Hnx, hnx_lean)]
+#[kani::stub(honest, honest_any)]
+#[kani::stub(is_native, is_native_no)]
+fn verif_lms_verify_ref_q1() {
+    verify_vs_ref();
+}
+
+#[kani::proof]
+#[kani::unwind(256)]
+#[kani::stub(Hn, hn_full)]
+#[kani::stub(Hm, hm_lean)]
+#[kani::stub(Hnx, hnx_lean)]
+#[kani::stub(honest, honest_any)]
+#[kani::stub(is_native, is_native_no)]
+fn verif_lms_verify_ref_full() {
+    verify_vs_ref();
+}
+
+// ------------------------------------------------------------------------
+// H5: verify rejects every wrongly sized signature, q >= 2^h and any wrong
+// type word, whatever the rest of the signature is.
+
+fn len_case<const L: usize>(pk: PublicKey, sig: &[u8; lms_siglen], fill: u8, msg: &[u8]) {
+    let mut buf = [fill; L];
+    let c = if L < lms_siglen { L } else { lms_siglen };
+    buf[..c].copy_from_slice(&sig[..c]);
+    assert!(!pk.verify(&buf, msg));
+}
+
+#[kani::proof]
+#[kani::unwind(256)]
+#[kani::stub(Hn, hn_ff)]
+#[kani::stub(Hm, hm_lean)]
+#[kani::stub(Hnx, hnx_lean)]
+#[kani::stub(honest, honest_any)]
+#[kani::stub(is_native, is_native_no)]
+fn verif_lms_verify_reject() {
+    let id: [u8; 16] = kani::any();
+    let seed: [u8; m] = kani::any();
+    let q: u32 = kani::any();
+    let msg: [u8; 3] = kani::any();
+    let tape: [u8; n] = kani::any();
+    let (pk, sig) = honest(id, seed, q, &msg, tape, kani::any(), kani::any());
+    if is_native() {
+        assert!(pk.verify(&sig, &msg));
+    }
+    // (a) wrong sizes: truncated / extended by one byte, empty, shorter than the
+    // fixed words, LM-OTS part only, no path, doubled
+    let fill: u8 = kani::any();
+    len_case::<{ lms_siglen + 1 }>(pk, &sig, fill, &msg);
+    len_case::<{ lms_siglen - 1 }>(pk, &sig, fill, &msg);
+    len_case::<{ 2 * lms_siglen }>(pk, &sig, fill, &msg);
+    len_case::<{ lms_siglen + m }>(pk, &sig, fill, &msg);
+    len_case::<{ lms_siglen - m }>(pk, &sig, fill, &msg);
+    len_case::<{ ots_siglen + 8 }>(pk, &sig, fill, &msg);
+    len_case::<{ ots_siglen + 4 }>(pk, &sig, fill, &msg);
+    len_case::<8>(pk, &sig, fill, &msg);
+    len_case::<7>(pk, &sig, fill, &msg);
+    len_case::<4>(pk, &sig, fill, &msg);
+    len_case::<3>(pk, &sig, fill, &msg);
+    len_case::<0>(pk, &sig, fill, &msg);
+    // (b) one of: q >= 2^h, wrong LM-OTS type word, wrong LMS type word
+    let which: u8 = kani::any();
+    let word: u32 = kani::any();
+    kani::assume(which < 3);
+    let mut bad = sig;
+    if which == 0 {
+        kani::assume(word >= NLEAF);
+        bad[0..4].copy_from_slice(&ref_u32str(word));
+    } else if which == 1 {
+        kani::assume(word != EXP_OTS_TYPE);
+        bad[4..8].copy_from_slice(&ref_u32str(word));
+    } else {
+        kani::assume(word != EXP_LMS_TYPE);
+        bad[(4 + EXP_OTS_SIGLEN)..(8 + EXP_OTS_SIGLEN)].copy_from_slice(&ref_u32str(word));
+    }
+    assert!(!pk.verify(&bad, &msg));
+    kani::cover!(which == 0 && word == NLEAF);
+    kani::cover!(which == 1 && word == (EXP_OTS_TYPE ^ 0x0100_0000));
+    kani::cover!(which == 1 && word == (EXP_OTS_TYPE ^ 1));
+    kani::cover!(which == 2 && word == (EXP_LMS_TYPE ^ 0x0001_0000));
 }
